@@ -119,6 +119,7 @@ func runC03(c *core.Ctx) {
 	ps := loadPDUs(c)
 	c.MinInstances("C03-PANIC", 150)
 	c.MinInstances("C03-LOOP", 12)
+	headerReaderRules(c)
 	c.MinInstances("C03-ALLOC", 10)
 	c.MinInstances("C03-TRUNC", MinPDUs+40)
 	c.Trust("Go's run-time panic conditions for index/slice/make/divide", "strings.Index / bytes.IndexByte return -1 or an offset with r+len(needle) <= len(haystack)",
